@@ -32,6 +32,19 @@ class Proxy:
     __hash__ = None
 
 
+class Wildcard:
+    """A foreign object whose == and != both say True (a query-building or
+    "matches anything" object): the interface leaves both to it."""
+
+    def __eq__(self, other):
+        return True
+
+    def __ne__(self, other):
+        return True
+
+    __hash__ = None
+
+
 class Named:
     def __init__(s, n, m):
         s.__name__ = n
@@ -77,7 +90,7 @@ def universe():
     for i, s in enumerate(SPECS):
         labels[id(s)] = 'spec%d' % i
     foreign = [3, 'a', object(), Named, len, sys, Named('a', 'm'), Named('zz', 'zz'), (), 1.5,
-               Proxy()]
+               Proxy(), Wildcard()]
     return IF, [twin, twin2, twin3, cm1, cm2], SPECS, foreign, labels, K
 
 
@@ -224,6 +237,11 @@ def _laws(arg):
                 r = (a == f, a != f, f == a, f != a)
             except Exception as e:
                 bad('foreign-eq-raises', key(a), repr(f)[:30], type(e).__name__)
+                continue
+            if isinstance(f, Wildcard):
+                if r != (True, True, True, True):
+                    bad('foreign-eq-not-delegated', key(a), r)
+                matrix.append(list(r))
                 continue
             if r[0] == r[1] or r[2] == r[3] or r[0] != r[2]:
                 bad('foreign-eq-ne', key(a), repr(f)[:30], r)
